@@ -689,6 +689,15 @@ def typed_corpus():
         pg.P1([["assign", "<state>a", ADD(A, DT), []], ["assign", "acc", C(0), []],
                ["assign", "acc", ADD(V("acc"), MUL(V("i"), A)), [["i", C(0), C(3)]]], ["assign", "half", ["/", V("acc"), C(2)], []]]),
     ]
+    # a complex scalar combined with a REAL array, scalar first and array first (sum, product, scaled product)
+    progs += [
+        pg.P1([["assign", "<state>a", ADD(A, DT), []], ["assign", "z", ["call", "<func>c", [A], {}], []],
+               ["assign", "arr", ["call", "<builtin>array", [C(3)], {}], []],
+               ["assign", ["sub", "arr", V("i")], ["/", V("i"), C(3)], [["i", C(0), C(3)]]],
+               ["assign", "p_za", MUL(V("z"), V("arr")), []], ["assign", "p_az", MUL(V("arr"), V("z")), []],
+               ["assign", "s_za", ADD(V("z"), V("arr")), []], ["assign", "p_2za", MUL(C(2), V("z"), V("arr")), []],
+               ["assign", "q_za", ["/", V("z"), V("arr")], []]]),
+    ]
     # two phases that use the SAME local name with different kinds (array | flag | user type in one, real scalar in the other)
     def two(ops_p, ops_q):
         return {"phases": [{"name": "p", "next": "q", "ops": ops_p}, {"name": "q", "next": "p", "ops": ops_q}], "initial": "p"}
